@@ -49,6 +49,16 @@ func genEndpoint(r *rand.Rand) mEndpoint {
 	case 1:
 		e.Default = bptr(false)
 	}
+	// the optional ResponseLocation attribute, with values DIFFERENT from Location: another registered
+	// location, a URL that is registered nowhere, a sibling path; the IdP must never route by it
+	switch r.Intn(6) {
+	case 0:
+		e.RL = sptr(pick(r, c05Locs))
+	case 1:
+		e.RL = sptr("https://attacker.example.net/collect")
+	case 2:
+		e.RL = sptr(e.Location + "-ack")
+	}
 	return e
 }
 
@@ -63,6 +73,8 @@ func genMeta(r *rand.Rand, entity string) *mMeta {
 		}
 		m.Descs = append(m.Descs, d)
 	}
+	// half of the registered metadata reaches the registry through the XML parser
+	m.ViaXML = r.Intn(2) == 0 && m.xmlParsable()
 	return m
 }
 
@@ -334,21 +346,31 @@ func (f c05Framing) build(cfg mCfg, w mWire) (*http.Request, bool) {
 	return httpRequest(method, cfg.SSOURL, val, "relay-c05"), f.broken == ""
 }
 
-func posOf(e *saml.IndexedEndpoint) (int, int, bool) {
-	if e == nil || e.ResponseLocation == nil {
+// posOf locates the selected endpoint in the registered metadata: the descriptor by its ID, the
+// endpoint as the first one of that descriptor with the same content (binding, location, index,
+// isDefault) — endpoints of equal content are indistinguishable to every selection predicate, so the
+// first of them is the one a first-match search returns. An endpoint that is not (a copy of) a
+// registered one has no position.
+func posOf(md *mMeta, d *saml.SPSSODescriptor, e *saml.IndexedEndpoint) (int, int, bool) {
+	if md == nil || d == nil || e == nil || !strings.HasPrefix(d.ID, "desc") {
 		return 0, 0, false
 	}
-	m := tagRe.FindStringSubmatch(*e.ResponseLocation)
-	if m == nil {
+	di, err := strconv.Atoi(strings.TrimPrefix(d.ID, "desc"))
+	exp := md.expectedACS()
+	if err != nil || di < 0 || di >= len(exp) {
 		return 0, 0, false
 	}
-	di, _ := strconv.Atoi(m[1])
-	ei, _ := strconv.Atoi(m[2])
-	return di, ei, true
+	same := func(a, b *bool) bool { return (a == nil) == (b == nil) && (a == nil || *a == *b) }
+	for ei, x := range exp[di] {
+		if x.Binding == e.Binding && x.Location == e.Location && x.Index == e.Index && same(x.Default, e.IsDefault) {
+			return di, ei, true
+		}
+	}
+	return 0, 0, false
 }
 
 // validateObs runs NewIdpAuthnRequest + Validate on the real code.
-func validateObs(idp *saml.IdentityProvider, r *http.Request) (term string, info map[string]any, req *saml.IdpAuthnRequest) {
+func validateObs(idp *saml.IdentityProvider, sr *stubRegistry, r *http.Request) (term string, info map[string]any, req *saml.IdpAuthnRequest) {
 	info = map[string]any{}
 	defer func() {
 		if p := recover(); p != nil {
@@ -365,7 +387,7 @@ func validateObs(idp *saml.IdentityProvider, r *http.Request) (term string, info
 		info["validate_error"] = err.Error()
 		return "VErr", info, nil
 	}
-	di, ei, ok := posOf(rq.ACSEndpoint)
+	di, ei, ok := posOf(sr.metaOf(rq.ServiceProviderMetadata), rq.SPSSODescriptor, rq.ACSEndpoint)
 	if !ok {
 		// accepted, but the endpoint is not one of the registered ones (no tag)
 		info["acs_endpoint"] = fmt.Sprintf("%+v", rq.ACSEndpoint)
@@ -387,7 +409,7 @@ func c05One(c *Ctx, g *Group, cfg mCfg, reg []mRegEntry, now time.Time, w mWire,
 	withGlobals(cfg, now, func() {
 		r1, ok := fr.build(cfg, w)
 		decodable = ok
-		vterm, vinfo, _ = validateObs(idp, r1)
+		vterm, vinfo, _ = validateObs(idp, sr, r1)
 		r2, _ := fr.build(cfg, w)
 		hobs = observeHTTP(func(rw http.ResponseWriter) { idp.ServeSSO(rw, r2) })
 	})
@@ -435,25 +457,41 @@ func runC05(c *Ctx) {
 	t, f := bptr(true), bptr(false)
 	crafted := []*mMeta{
 		// single endpoint (the shape the repository's tests use)
-		{Entity: c05Entity, Descs: []mSPSSO{{ACS: []mEndpoint{{bPost, c05Locs[0], 1, nil}}}}},
+		{Entity: c05Entity, Descs: []mSPSSO{{ACS: []mEndpoint{{bPost, c05Locs[0], 1, nil, nil}}}}},
 		// index and location disagree; default flag on a non-browser binding; several descriptors
 		{Entity: c05Entity, Descs: []mSPSSO{
-			{ACS: []mEndpoint{{bArtifact, c05Locs[1], 0, t}, {bRedirect, c05Locs[0], 1, nil}, {bPost, c05Locs[2], 2, f}}},
-			{ACS: []mEndpoint{{bPost, c05Locs[0], 1, t}, {bPost, c05Locs[5], 3, nil}}}}},
+			{ACS: []mEndpoint{{bArtifact, c05Locs[1], 0, t, nil}, {bRedirect, c05Locs[0], 1, nil, nil}, {bPost, c05Locs[2], 2, f, nil}}},
+			{ACS: []mEndpoint{{bPost, c05Locs[0], 1, t, nil}, {bPost, c05Locs[5], 3, nil, nil}}}}},
 		// only non-browser bindings
-		{Entity: c05Entity, Descs: []mSPSSO{{ACS: []mEndpoint{{bArtifact, c05Locs[0], 0, t}, {bSOAP, c05Locs[1], 1, nil}}}}},
+		{Entity: c05Entity, Descs: []mSPSSO{{ACS: []mEndpoint{{bArtifact, c05Locs[0], 0, t, nil}, {bSOAP, c05Locs[1], 1, nil, nil}}}}},
 		// first descriptor empty, default later, duplicate locations with different bindings
-		{Entity: c05Entity, Descs: []mSPSSO{{}, {ACS: []mEndpoint{{bRedirect, c05Locs[0], 0, nil}, {bPost, c05Locs[0], 1, nil}, {bPost, c05Locs[1], 1, t}}}}},
+		{Entity: c05Entity, Descs: []mSPSSO{{}, {ACS: []mEndpoint{{bRedirect, c05Locs[0], 0, nil, nil}, {bPost, c05Locs[0], 1, nil, nil}, {bPost, c05Locs[1], 1, t, nil}}}}},
 		// no descriptors at all
 		{Entity: c05Entity},
 		// blank-Location endpoints (parser-blanked PAOS, literally empty) before, between and after the good ones
-		{Entity: c05Entity, Descs: []mSPSSO{{ACS: []mEndpoint{{bPAOS, "", 0, nil}, {bPost, c05Locs[0], 1, nil}, {bRedirect, c05Locs[1], 2, nil}}}}},
-		{Entity: c05Entity, Descs: []mSPSSO{{ACS: []mEndpoint{{bPost, c05Locs[0], 1, nil}, {bPAOS, "", 2, t}, {bPost, "", 3, nil}, {bPost, c05Locs[1], 4, nil}}}}},
-		{Entity: c05Entity, Descs: []mSPSSO{{ACS: []mEndpoint{{bArtifact, c05Locs[1], 0, nil}}}, {ACS: []mEndpoint{{bPost, c05Locs[0], 1, nil}, {bPAOS, "", 5, nil}, {bPAOS, "", 5, nil}}}}},
-		{Entity: c05Entity, Descs: []mSPSSO{{ACS: []mEndpoint{{bPAOS, "", 7, nil}}}, {ACS: []mEndpoint{{"urn:example:unknown", "", 8, f}}}}},
-		{Entity: c05Entity, Descs: []mSPSSO{{ACS: []mEndpoint{{bRedirect, "", 1, t}, {bPost, c05Locs[0], 1, nil}}}}},
+		{Entity: c05Entity, Descs: []mSPSSO{{ACS: []mEndpoint{{bPAOS, "", 0, nil, nil}, {bPost, c05Locs[0], 1, nil, nil}, {bRedirect, c05Locs[1], 2, nil, nil}}}}},
+		{Entity: c05Entity, Descs: []mSPSSO{{ACS: []mEndpoint{{bPost, c05Locs[0], 1, nil, nil}, {bPAOS, "", 2, t, nil}, {bPost, "", 3, nil, nil}, {bPost, c05Locs[1], 4, nil, nil}}}}},
+		{Entity: c05Entity, Descs: []mSPSSO{{ACS: []mEndpoint{{bArtifact, c05Locs[1], 0, nil, nil}}}, {ACS: []mEndpoint{{bPost, c05Locs[0], 1, nil, nil}, {bPAOS, "", 5, nil, nil}, {bPAOS, "", 5, nil, nil}}}}},
+		{Entity: c05Entity, Descs: []mSPSSO{{ACS: []mEndpoint{{bPAOS, "", 7, nil, nil}}}, {ACS: []mEndpoint{{"urn:example:unknown", "", 8, f, nil}}}}},
+		{Entity: c05Entity, Descs: []mSPSSO{{ACS: []mEndpoint{{bRedirect, "", 1, t, nil}, {bPost, c05Locs[0], 1, nil, nil}}}}},
 		// isDefault=false everywhere, redirect first
-		{Entity: c05Entity, Descs: []mSPSSO{{ACS: []mEndpoint{{bRedirect, c05Locs[1], 5, f}, {bPost, c05Locs[0], -1, f}}}}},
+		{Entity: c05Entity, Descs: []mSPSSO{{ACS: []mEndpoint{{bRedirect, c05Locs[1], 5, f, nil}, {bPost, c05Locs[0], -1, f, nil}}}}},
+	}
+	// every crafted shape also as a parsed XML document whose endpoints carry a ResponseLocation that is
+	// another registered location or an unregistered URL
+	for _, md := range append([]*mMeta{}, crafted...) {
+		cp := &mMeta{Entity: md.Entity, ViaXML: true}
+		for _, d := range md.Descs {
+			nd := mSPSSO{}
+			for i, e := range d.ACS {
+				e.RL = sptr([]string{c05Locs[1], "https://attacker.example.net/collect", e.Location + "-ack", c05Locs[0]}[i%4])
+				nd.ACS = append(nd.ACS, e)
+			}
+			cp.Descs = append(cp.Descs, nd)
+		}
+		if cp.xmlParsable() {
+			crafted = append(crafted, cp)
+		}
 	}
 	for _, md := range crafted {
 		for _, now := range c05Nows[:1] {
